@@ -241,5 +241,5 @@ func TestVerifC09Remote(t *testing.T) {
 		"MAIL / one RCPT / DATA / per-recipient LMTP status. Oracle: the multiset of keys passed to StatusCollector.SetStatus equals the multiset of addresses whose AddRcpt returned nil in that " +
 		"transaction (set equality when the list has duplicates). pipeline unit: 1-to-N recipient rewrites in front of a per-recipient target; every reported key is an address the client supplied. " +
 		"Non-trivial = an address needed conversion for the next hop, or a cached connection was reused, or a duplicate recipient. Distinct = distinct scenario.")
-	ev.Run(t, r, ev.Spec[c09Scenario]{Name: "remote", N: r.N, Gen: c09Gen, Run: c09Run, Info: c09Info})
+	ev.Run(t, r, ev.Spec[c09Scenario]{Name: "remote", Journal: true, N: r.N, Gen: c09Gen, Run: c09Run, Info: c09Info})
 }
